@@ -243,6 +243,8 @@ def run(chk: Check) -> None:
         chk.ob('PROV-copy-at-save', pl, ok, f'{k} is restored through decode_input_args', kind=f'decoded:{k}')
     members_deepcopied(chk)
     load_is_deterministic(chk)
+    from .common import copy_protocol_is_deep
+    copy_protocol_is_deep(chk, 'PROV-copy-at-save')
     from .c19 import class_identified_by_loader
     class_identified_by_loader(chk, 'PROV-class-identifier')
     # 5. YAML tags
